@@ -23,6 +23,8 @@ def cost_kdf(rec):
             c += w * 5 * (1 + e["n"] // HL[alg]) if e["n"] <= 255 * HL[alg] else 1
         elif e["op"] == "pbkdf2":
             c += w * 4 * e["c"] * (1 + e["n"] // HL[alg])
+        elif e["op"] == "pbkdf2_blocks":
+            c += w * 4 * e["c"] * len(e["blocks"])
         elif e["op"] == "scrypt":
             c += 3 * 2 * (2 ** e["logn"]) * 2 * e["r"] * e["p"] + 5 * 4 * (4 + e["p"] * 128 * e["r"] // 32)
     return c
@@ -31,6 +33,8 @@ def cost_kdf(rec):
 def run(R):
     thorough = R.tier == "thorough"
     R.model_check("MacObj", "MC_MacObj_hmac.cfg", need_actions=["Input", "Result", "Reset"], workers=4)
+    # the output loops of HKDF-Expand (counter of W bits, refusal beyond (2^W - 1) blocks) and PBKDF2 (three-phase xor accumulation), every output length
+    R.model_check("KdfLoops", "MC_KdfLoops.cfg", need_actions=["Hkdf", "Pbkdf"], workers=2)
     evs = []
     rb = lambda t, n: vlib.prng_bytes(R.seed, "c10/" + t, n)
     # ---- HKDF
@@ -46,7 +50,20 @@ def run(R):
             evs.append(dict({"op": "hkdf_expand", "alg": alg, "prk": rb("prk" + alg, hl), "info": rb("info%s%d" % (alg, L), L % 11), "n": L}, **extra))
         for L in [255 * hl + 1, 255 * hl + hl - 1, 256 * hl, 256 * hl + 1]:
             evs.append(dict({"op": "hkdf_expand", "alg": alg, "prk": rb("prk" + alg, hl), "info": [], "n": L}, **extra))
+        # the digest instance handed over has already been used (absorbed input / finalised), with keys on both sides of the block size: the
+        # functions reset what they are given, so the result is the same
+        bs = hc.block_of(alg)
+        for i, (sl, used, fin) in enumerate([(13, 5, False), (bs + 17, 9, False), (bs + 1, 70, True), (bs, 1, True)]):
+            evs.append(dict({"op": "hkdf_extract", "alg": alg, "salt": rb("usalt%s%d" % (alg, i), sl), "ikm": rb("uikm%s%d" % (alg, i), 20), "n": hl, "used": rb("used", used), "used_final": fin}, **extra))
+            evs.append(dict({"op": "hkdf_expand", "alg": alg, "prk": rb("uprk%s%d" % (alg, i), sl), "info": rb("ui", 3), "n": hl + 3, "used": rb("used", used), "used_final": fin}, **extra))
     # ---- PBKDF2
+    # block indices beyond 2^16 (INT(i) is four octets): a long derived key of which the blocks around the byte boundaries of the index are
+    # validated (the blocks are independent of each other, so TLC recomputes only those)
+    for alg, c in (("sha1", 1), ("sha256", 2)) + ((("sha512", 1),) if thorough else ()):
+        hl = HL[alg]
+        nblocks = 65536 + 3
+        evs.append({"op": "pbkdf2_blocks", "alg": alg, "pw": rb("pwbig" + alg, 9), "salt": rb("psbig" + alg, 6), "c": c, "n": hl * (nblocks - 1) + 5,
+                    "blocks": [1, 255, 256, 257, 65535, 65536, 65537, nblocks]})
     for alg in ("sha1", "sha256", "sha512"):
         hl = HL[alg]
         for c in ([1, 2, 3, 4, 5] if thorough else [1, 2, 3]):
